@@ -284,11 +284,16 @@ def reset_drop_events():
 def set_drop_threshold(threshold):
     """Install the knob (None = the shipped 8192, still observed).  Returns the previous object."""
     from pyasn1.codec import streaming
-    prev = streaming.io
-    real = prev.__dict__['_real'] if isinstance(prev, IoProxy) else prev
-    streaming.io = IoProxy(real, 8192 if threshold is None else threshold)
     DROP_EVENTS['drops'] = 0
     DROP_EVENTS['inside_definite'] = 0
+    prev = getattr(streaming, 'io', None)
+    if prev is None:
+        # the seam is gone (the module no longer looks the buffer size up through `io.`): the knob
+        # cannot be installed; runs proceed with the shipped threshold and say so
+        DROP_EVENTS['knob_unavailable'] = DROP_EVENTS.get('knob_unavailable', 0) + 1
+        return None
+    real = prev.__dict__['_real'] if isinstance(prev, IoProxy) else prev
+    streaming.io = IoProxy(real, 8192 if threshold is None else threshold)
     return prev
 
 
